@@ -22,7 +22,7 @@ AIGER = ['aiger:aag', 'aiger:aig']
 STANDIN_FOR = {
     'C01': FMT_SUITES, 'C02': ['reader'], 'C03': [s for s in FMT_SUITES if 'satlog' not in s] + AIGER, 'C04': FMT_SUITES, 'C05': FMT_SUITES,
     'C06': DIMACS + AIGER, 'C07': DIMACS, 'C08': FMT_SUITES + DIMACS, 'C09': STREAMING + ['reader'], 'C10': ['reader', 'mem'], 'C11': ['writer'],
-    'C12': ['renumber'], 'C13': ['scan'], 'C14': ['reader'], 'C16': ['scan'],
+    'C12': ['renumber'], 'C13': ['scan'], 'C14': ['reader', 'raw'], 'C16': ['scan'],
 }
 SUITE_FN = {
     'fmt:btor2': ('flussab_btor2::parser::Parser::next_line / btor2::Line::write_into', 'flussab-btor2/src/parser.rs'),
@@ -44,6 +44,7 @@ SUITE_FN = {
     'scan': ('flussab::text scanners against whole-string reference definitions', 'flussab/src/text.rs'),
     'renumber': ('flussab_aiger::aig::Renumber::renumber_aig on every small circuit', 'flussab-aiger/src/aig.rs'),
     'mem': ('streaming parsers under a counting allocator', 'flussab/src/deferred_reader.rs'),
+    'raw': ('raw-pointer paths of flussab::text / write::text / DeferredReader under valgrind memcheck', 'flussab/src/text.rs'),
 }
 
 LEVELS = {}          # property -> level category (default proof)
@@ -111,10 +112,27 @@ def run_suite(suite, prop, tier, seed):
     if exe is None:
         er.update(status='undecided', reason='the bounded stand-in does not build against this tree (public API changed?): ' + msg, wall_s=time.time() - t0)
         return er
+    cmd = [exe, suite, prop, tier, str(seed)]
+    if suite == 'raw':
+        if not shutil.which('valgrind'):
+            er.update(status='undecided', reason='valgrind is not installed; the raw suite decides nothing without it', wall_s=time.time() - t0)
+            return er
+        cmd = ['valgrind', '-q', '--error-exitcode=9'] + cmd
     try:
-        p = subprocess.run([exe, suite, prop, tier, str(seed)], capture_output=True, text=True, timeout=3600 if tier == 'thorough' else 900)
+        p = subprocess.run(cmd, capture_output=True, text=True, timeout=3600 if tier == 'thorough' else 900)
     except subprocess.TimeoutExpired:
         er.update(status='undecided', reason='the bounded stand-in %s did not finish in time' % suite, wall_s=time.time() - t0)
+        return er
+    if suite == 'raw' and p.returncode == 9:
+        # memcheck saw an access outside an allocation: the report is the counterexample
+        first = (p.stderr or '').strip().split('\n\n')[0][:1500]
+        er.update(status='failed', failures_n=1, wall_s=round(time.time() - t0, 2), bound='see suite raw', cases=0)
+        er['failures'].append({
+            'engine': 'standin', 'kind': 'bounded_standin', 'fn': fn, 'clause': '%s::C14_no_access_outside_an_allocation_valgrind_memcheck' % name, 'tags': [prop],
+            'message': 'bounded stand-in raw under valgrind memcheck: invalid access: ' + first[:700], 'rendered': (p.stderr or '')[:3000],
+            'clause_text': 'C14 no access outside an allocation (valgrind memcheck)', 'site': ((path, 0), 0),
+            'counterexample': {'valgrind': first}, 'scenario': {'kind': 'standin', 'suite': 'raw', 'prop': prop, 'replay': [], 'check': 'valgrind memcheck'},
+        })
         return er
     try:
         d = json.loads(p.stdout.strip().splitlines()[-1])
@@ -156,6 +174,11 @@ def replay_standin(sc):
         print('NOT-REPRODUCED (stand-in does not build: %s)' % msg[-300:])
         return 0
     args = [exe, '--replay', sc['suite'], sc.get('prop') or 'all'] + list(sc['replay'])
+    if sc['suite'] == 'raw':
+        p = subprocess.run(['valgrind', '-q', '--error-exitcode=9', exe, 'raw', sc.get('prop') or 'C14', 'quick', '1'], capture_output=True, text=True, timeout=900)
+        print((p.stderr or '')[:3000])
+        print('REPRODUCED: valgrind memcheck reports an invalid access in the real code' if p.returncode == 9 else 'NOT-REPRODUCED')
+        return 1 if p.returncode == 9 else 0
     try:
         p = subprocess.run(args, capture_output=True, text=True, timeout=900)
     except subprocess.TimeoutExpired:
